@@ -2071,7 +2071,9 @@ def inline_fresh_temps(rel, module, refnames):
                         continue
                     if isinstance(stx, ast.Assign) and len(stx.targets) == 1 and isinstance(stx.targets[0], ast.Tuple) \
                             and isinstance(stx.value, ast.Tuple) and len(stx.value.elts) == len(stx.targets[0].elts) \
-                            and all(isinstance(e, ast.Name) and e.id not in want and e.id not in params for e in stx.targets[0].elts) \
+                            and all(isinstance(e, ast.Name) and e.id not in params and
+                                    (e.id not in want or any(t_.startswith(e.id + ' = ') for t_ in ref_stmts_)) for e in stx.targets[0].elts) \
+                            and U(stx) not in ref_stmts_ \
                             and all(_pure(v) for v in stx.value.elts):
                         tn = {e.id for e in stx.targets[0].elts}
                         if not any(isinstance(x, ast.Name) and x.id in tn for v in stx.value.elts for x in ast.walk(v)):
